@@ -167,6 +167,29 @@ func c07Exec(c *mon.Case) {
 		c.Failf("numeric widening "+typeNames[v.T]+" -> "+typeNames[T]+" does not deliver the correctly rounded value", "%s -> %s, expected %s", desc, got, w)
 		return
 	}
+	// date-times count whole Unix seconds, time spans whole milliseconds (the second / millisecond the value lies in)
+	switch key {
+	case "T>I", "T>L":
+		if got.Long() != v.Time().Unix() {
+			c.Failf("a date-time is not converted to its Unix second", "%s -> %s, expected %d", desc, got, v.Time().Unix())
+			return
+		}
+	case "I>T", "L>T":
+		if math.Abs(float64(v.Long())) <= 1e15 && !got.Time().Equal(time.Unix(v.Long(), 0)) {
+			c.Failf("a count of Unix seconds is not converted to that instant", "%s -> %s, expected %s", desc, got, vTime(time.Unix(v.Long(), 0).UTC()))
+			return
+		}
+	case "P>I", "P>L":
+		if got.Long() != int64(v.Span()/time.Millisecond) {
+			c.Failf("a time span is not converted to its whole milliseconds", "%s -> %s, expected %d", desc, got, int64(v.Span()/time.Millisecond))
+			return
+		}
+	case "I>P", "L>P":
+		if math.Abs(float64(v.Long())) <= float64(math.MaxInt64/1000000) && got.Span() != time.Duration(v.Long())*time.Millisecond {
+			c.Failf("a count of milliseconds is not converted to that time span", "%s -> %s, expected %s", desc, got, vSpan(time.Duration(v.Long())*time.Millisecond))
+			return
+		}
+	}
 	c.NonTrivial()
 	c.Mark("conversions-exercised", mgr+":"+key)
 	if mgr == "safe" {
